@@ -13,7 +13,6 @@ import (
 	"k8s.io/apimachinery/pkg/runtime/schema"
 	"k8s.io/cli-runtime/pkg/resource"
 	"k8s.io/client-go/discovery"
-	"k8s.io/client-go/discovery/cached/memory"
 	"k8s.io/client-go/dynamic"
 	"k8s.io/client-go/kubernetes"
 	"k8s.io/client-go/rest"
@@ -76,8 +75,17 @@ func (f *simFactory) ToDiscoveryClient() (discovery.CachedDiscoveryInterface, er
 	if err != nil {
 		return nil, err
 	}
-	return memory.NewMemCacheClient(dc), nil
+	// No memory cache: client-go's memCacheClient retries transient discovery
+	// errors while holding its mutex, and a goroutine blocked on a sync.Mutex
+	// is not "durably blocked" for synctest, which would wedge the scheduler.
+	// The CLI uses a disk cache here; an uncached client only issues more GETs.
+	return &uncachedDiscovery{dc}, nil
 }
+
+type uncachedDiscovery struct{ *discovery.DiscoveryClient }
+
+func (uncachedDiscovery) Fresh() bool { return true }
+func (uncachedDiscovery) Invalidate() {}
 func (f *simFactory) ToRESTMapper() (meta.RESTMapper, error) { return f.mapper, nil }
 
 type nsConfig struct {
@@ -177,6 +185,13 @@ type seamDriver struct {
 
 func (d *seamDriver) Name() string { return d.inner.Name() }
 
+func relStatus(rls *release.Release) string {
+	if rls == nil || rls.Info == nil {
+		return ""
+	}
+	return " " + rls.Info.Status.String()
+}
+
 func (d *seamDriver) gate(op, key string) (verdict string, err error) {
 	if !d.park || d.proc.Direct {
 		return "", nil
@@ -215,7 +230,7 @@ func (d *seamDriver) record(op, key string, rls *release.Release, err error, app
 var errStoreFault = fmt.Errorf("simulated storage failure")
 
 func (d *seamDriver) Create(key string, rls *release.Release) error {
-	v, err := d.gate("create", key)
+	v, err := d.gate("create", key+relStatus(rls))
 	if err != nil {
 		return err
 	}
@@ -234,7 +249,7 @@ func (d *seamDriver) Create(key string, rls *release.Release) error {
 }
 
 func (d *seamDriver) Update(key string, rls *release.Release) error {
-	v, err := d.gate("update", key)
+	v, err := d.gate("update", key+relStatus(rls))
 	if err != nil {
 		return err
 	}
